@@ -14,7 +14,7 @@ from lib.coqterm import cbytes, cbool, cN, clist, copt, hx, unhx
 
 ID = "C48"
 QUICK_N = 900
-THOROUGH_N = 12000
+THOROUGH_N = 8000
 SHARD = 200
 RULE = ("55% requests built from per-field token dictionaries (shell metacharacters, quotes, command substitutions, "
         "control characters, percent/backslash, leading dash/at-sign, high and invalid UTF-8 bytes in method, scheme, host, "
@@ -24,7 +24,7 @@ RULE = ("55% requests built from per-field token dictionaries (shell metacharact
         "15% argument lists through shlex.quote; 10% raw_request exports of well-formed requests (gzip, chunked, trailers). "
         "Non-trivial = something needed quoting or a body/here-string/command substitution is present; distinct by JSON.")
 TRUSTED = ["Coq 8.16.1 kernel (coqc), vm_compute for case evaluation and byte sweeps",
-           "harness/props/C48.py (generator, stub executables, comparison glue Corr/C48.v)",
+           "harness/props/C48.py (generator, batch driver with stub curl/http/pwned shell functions, glue Corr/C48.v)",
            "Model/Sh.v: hand model of the bash word parser / printf builtin fragment, written from the bash manual; tied to "
            "/bin/bash 5.2 only by correspondence (bash by contract)",
            "Model/Export.v shlex.quote written from CPython Lib/shlex.py; tied by correspondence",
